@@ -3,6 +3,8 @@ Theorems: Properties/C01.v (sequence and bag machines at every template, all his
 Ties: implementation <-> M_py on all 94 types; implementation <-> specification machines on their classes.
 Search: every passing final check of the implementation is judged by the extracted verified matcher."""
 import json
+import os
+import random
 from . import common as C
 from . import matcher, hist
 
@@ -97,6 +99,7 @@ def run(rep):
             rep.coverage['evaluations'] = rep.coverage.get('evaluations', 0) + len(cases)
             rep.coverage['traces_validated_against_impl'] = rep.coverage.get('traces_validated_against_impl', 0) + len(cases)
         n_docs, n_nodes = doc_level(rep, m, quick)
+        nested_validity(rep, m, quick)
         corp.coverage({'final_checks_judged': n_judged, 'impl_model_differences': len(diffs), 'documents_emitted_and_validated': n_docs, 'document_nodes_judged': n_nodes})
     finally:
         corp.close()
@@ -160,6 +163,77 @@ def doc_level(rep, m, quick):
     finally:
         mx.close()
     return n_docs, len(items)
+
+
+def nested_validity(rep, m, quick):
+    """documents built through the API, a random history applied at random depths (removals, admissible and inadmissible adds, same-name
+    replacements, detached subtrees taken apart); whenever to_string() of the ROOT returns, EVERY node of the emitted text is judged by the
+    verified matcher against the content model of its element's type"""
+    import subprocess
+    import xml.etree.ElementTree as ET
+    from . import docgen, extract
+    g = m.g
+    rng = random.Random(rep.seed * 17 + 3)
+    G = docgen.Gen(g, rng)
+    type_of = {}
+    for name, tys in g['elements'].items():
+        t = tys[0][6:] if tys[0].startswith('<anon>') else tys[0]
+        if t in g['xsd_particles']:
+            type_of[name] = 'XSD:' + t
+    roots = sorted(n for n in type_of if n not in ('score-partwise', 'score-timewise'))
+    docs = []
+    # a third of the roots are the elements whose content models have choices (where a rejected child has gone through the re-arrangement search)
+    choicey = [n for n in roots if '"C"' in json.dumps(g['xsd_particles'][type_of[n][4:]])] or roots
+    for _ in range(600 if quick else 8000):
+        docs.append(G.element(rng.choice(choicey if rng.random() < 0.35 else roots), 0, 3))
+    n = C.NPROC
+    chunks = [docs[i::n] for i in range(n)]
+    procs = [subprocess.Popen([C.PY, '-W', 'ignore', os.path.join(C.VERIF, 'corr', 'c01_nested_runner.py')], stdin=subprocess.PIPE, stdout=subprocess.PIPE,
+                              stderr=subprocess.PIPE, text=True, env=C.impl_env()) for _ in chunks]
+    import threading
+    outs = [None] * n
+
+    def feed(i):
+        o, e = procs[i].communicate(json.dumps({'seed': rep.seed * 100 + i, 'docs': chunks[i], 'names': sorted(g['sym'])}), timeout=3000)
+        if procs[i].returncode != 0:
+            raise RuntimeError(e[-1500:])
+        outs[i] = json.loads(o)
+    ths = [threading.Thread(target=feed, args=(i,)) for i in range(n)]
+    [t.start() for t in ths]
+    [t.join() for t in ths]
+    if any(o is None for o in outs):
+        raise RuntimeError('c01 nested runner shard failed')
+    items, where = [], []
+    n_ser = 0
+    for ci in range(n):
+        for d, r in zip(chunks[ci], outs[ci]):
+            for ic in (0, 1):
+                text = r.get('ic%d' % ic)
+                if text is None:
+                    continue
+                n_ser += 1
+                for e in ET.fromstring(text).iter():
+                    if e.tag in type_of and all(c.tag in m.sym for c in e):
+                        items.append((type_of[e.tag], [c.tag for c in e]))
+                        where.append((d, r, ic, e.tag))
+    mx = extract.Model(extra_templates={'XSD:' + k: v for k, v in g['xsd_particles'].items()})
+    try:
+        verdicts = mx.accepts(items)
+    finally:
+        mx.close()
+    seen = set()
+    nbad = 0
+    for (t, w), ok, (d, r, ic, tag) in zip(items, verdicts, where):
+        if ok:
+            continue
+        nbad += 1
+        key = 'C01:nested:%s' % tag
+        if key in seen:
+            continue
+        seen.add(key)
+        rep.finding_or_violation(key, '<%s> inside a serialised <%s> document has the children %s, not a word of its content model (after %s)' % (tag, d['tag'], w, r['ops']),
+                                 {'document_built_through_the_api': d, 'history': r['ops'], 'intelligent_choice': bool(ic), 'element': tag, 'children': w, 'emitted': r.get('ic%d' % ic, '')[:2500]})
+    rep.coverage['nested_histories'] = {'documents': len(docs), 'serialisations_judged': n_ser, 'nodes_judged': len(items), 'invalid_nodes': nbad}
 
 
 def replay(path):
